@@ -16,6 +16,7 @@
 import PydapModel.Subset
 import Proofs.Subset
 import Proofs.EndToEnd
+import Proofs.EndToEndGrid
 import Props.C03
 namespace Pydap.C02
 open Pydap
@@ -289,6 +290,84 @@ theorem C02_e2e_gather_is_numpy {α : Type} (shape : List Nat) (S : List (List N
     (E2E.cart S).length = Xdr.prod (selShape S) :=
   ⟨E2E.gather_spec shape S vals hr hl, E2E.gather_length shape S vals hr hl, E2E.cart_length S⟩
 
+/-! ### (C) grids on values: `grid[key]` is one fetch per indexed child (`E2E.fetchGrid`)
+
+  The source grid: array of type `ty`, shape `shape`, values `vals`; map `j` of type `(maps[j]).1` with the
+  `shape[j]` values `(maps[j]).2`.  Opened with the URL pre-constraint `pre` (map `j` stores `pre[j]`). -/
+
+/-- `output_grid = False`: one request, the array, and its value is numpy's (by (A)) -/
+theorem C02_e2e_grid_array_only (ty : Xdr.Ty) (shape : List Nat) (vals : List Xdr.Val)
+    (maps : List (Xdr.Ty × List Xdr.Val)) (pre : List PSlice) (key : List Idx)
+    (hw : E2E.WFArr ty shape vals) (hpl : pre.length ≤ shape.length) (h : NoEll key)
+    (hl : key.length ≤ shape.length)
+    (hv : ValidList shape (padPre pre shape.length) (npExpand key none shape.length)) :
+    ∃ cshape vs,
+      E2E.numpyIndex shape vals (padPre pre shape.length) (npExpand key none shape.length) = some (cshape, vs) ∧
+      E2E.fetchGrid false ty shape vals maps pre key = [(0, .ok (E2E.dataOf cshape vs, []))] := by
+  obtain ⟨cs, vs, h1, h2⟩ := C02_e2e_array ty shape vals pre key hw hpl h hl hv
+  exact ⟨cs, vs, h1, by rw [E2E.fetchGrid_off, h2]⟩
+
+/-- **(C) grid, `output_grid` on, key without Ellipsis**: `key.length + 1` children are fetched; the
+    array's value is numpy's `array[pre][key]`, and for every `j` below the key's length map `j`'s value is
+    numpy's `map_j[pre_j][key_j]` (integer entries keep the axis); the remaining maps stay lazy. -/
+theorem C02_e2e_grid (ty : Xdr.Ty) (shape : List Nat) (vals : List Xdr.Val)
+    (maps : List (Xdr.Ty × List Xdr.Val)) (pre : List PSlice) (key : List Idx)
+    (hw : E2E.WFArr ty shape vals) (hm : maps.length = shape.length)
+    (hwm : ∀ j (h1 : j < maps.length) (h2 : j < shape.length), E2E.WFArr maps[j].1 [shape[j]] maps[j].2)
+    (hpl : pre.length ≤ shape.length) (h : NoEll key) (hl : key.length ≤ shape.length)
+    (hv : ValidList shape (padPre pre shape.length) (npExpand key none shape.length)) :
+    (E2E.fetchGrid true ty shape vals maps pre key).length = key.length + 1 ∧
+    (∃ cshape vs,
+      E2E.numpyIndex shape vals (padPre pre shape.length) (npExpand key none shape.length) = some (cshape, vs) ∧
+      (E2E.fetchGrid true ty shape vals maps pre key)[0]? = some (0, .ok (E2E.dataOf cshape vs, []))) ∧
+    ∀ j (hj : j < key.length), ∃ cs vs,
+      E2E.numpyIndex [shape[j]'(by omega)] (maps[j]'(by omega)).2
+        [(padPre pre shape.length)[j]'(by rw [padPre_length pre _ hpl]; omega)] [key[j]] = some (cs, vs) ∧
+      (E2E.fetchGrid true ty shape vals maps pre key)[j + 1]? = some (j + 1, .ok (E2E.dataOf cs vs, [])) := by
+  obtain ⟨hlen, _, hmaps⟩ := C02_grid_maps shape (padPre pre shape.length) key h hl hv
+  refine ⟨by simpa [E2E.fetchGrid] using hlen, ?_, ?_⟩
+  · obtain ⟨cs, vs, h1, h2⟩ := C02_e2e_array ty shape vals pre key hw hpl h hl hv
+    exact ⟨cs, vs, h1, by rw [E2E.fetchGrid_array, h2]⟩
+  · intro j hj
+    have hjs : j < shape.length := by omega
+    have hE : (npExpand key none shape.length)[j]'(by rw [(validList_length hv).2]; exact hjs) = key[j] := by
+      simp [npExpand, List.getElem_append_left, hj]
+    have hvj := E2E.validList_getElem shape _ _ hv j hjs (by rw [(validList_length hv).1]; exact hjs)
+      (by rw [(validList_length hv).2]; exact hjs)
+    rw [hE] at hvj
+    exact E2E.fetchGrid_map true ty shape vals maps pre key j key[j] hjs (by omega) hpl
+      (hwm j (by omega) hjs) (h _ (List.getElem_mem hj)) (hmaps j hj).1 hvj.1 hvj.2
+
+/-- **(C) grid, `output_grid` on, key with an Ellipsis** (after the repair of `GridType.__getitem__`): the
+    array and *every* map are fetched; map `j`'s value is numpy's `map_j[pre_j][E_j]`, `E` being numpy's
+    expansion of the key. -/
+theorem C02_e2e_grid_ellipsis (ty : Xdr.Ty) (shape : List Nat) (vals : List Xdr.Val)
+    (maps : List (Xdr.Ty × List Xdr.Val)) (pre : List PSlice) (a b : List Idx)
+    (hw : E2E.WFArr ty shape vals) (hm : maps.length = shape.length)
+    (hwm : ∀ j (h1 : j < maps.length) (h2 : j < shape.length), E2E.WFArr maps[j].1 [shape[j]] maps[j].2)
+    (hpl : pre.length ≤ shape.length) (ha : NoEll a) (hb : NoEll b) (hl : a.length + b.length ≤ shape.length)
+    (hv : ValidList shape (padPre pre shape.length) (npExpand a (some b) shape.length)) :
+    (∃ cshape vs,
+      E2E.numpyIndex shape vals (padPre pre shape.length) (npExpand a (some b) shape.length) = some (cshape, vs) ∧
+      (E2E.fetchGrid true ty shape vals maps pre (a ++ Idx.ell :: b))[0]? = some (0, .ok (E2E.dataOf cshape vs, []))) ∧
+    ∀ j (hj : j < shape.length), ∃ cs vs,
+      E2E.numpyIndex [shape[j]] (maps[j]'(by omega)).2
+        [(padPre pre shape.length)[j]'(by rw [padPre_length pre _ hpl]; exact hj)]
+        [(npExpand a (some b) shape.length)[j]'(by rw [(validList_length hv).2]; exact hj)] = some (cs, vs) ∧
+      (E2E.fetchGrid true ty shape vals maps pre (a ++ Idx.ell :: b))[j + 1]?
+        = some (j + 1, .ok (E2E.dataOf cs vs, [])) := by
+  obtain ⟨_, hmaps⟩ := C02_grid_maps_ellipsis shape (padPre pre shape.length) a b ha hb hl hv
+  refine ⟨?_, ?_⟩
+  · obtain ⟨cs, vs, h1, h2⟩ := C02_e2e_array_ellipsis ty shape vals pre a b hw hpl ha hb hl hv
+    exact ⟨cs, vs, h1, by rw [E2E.fetchGrid_array, h2]⟩
+  · intro j hj
+    have hvj := E2E.validList_getElem shape _ _ hv j hj (by rw [(validList_length hv).1]; exact hj)
+      (by rw [(validList_length hv).2]; exact hj)
+    have hne : (npExpand a (some b) shape.length)[j]'(by rw [(validList_length hv).2]; exact hj) ≠ Idx.ell := by
+      intro he; rw [he] at hvj; exact hvj.2
+    exact E2E.fetchGrid_map true ty shape vals maps pre _ j _ hj (by omega) hpl
+      (hwm j (by omega) hj) hne (hmaps j hj).1 hvj.1 hvj.2
+
 def exVals : List Xdr.Val := [.num 10, .num 11, .num 12, .num 13, .num 14, .num 15, .num 16, .num 17, .num 18, .num 19]
 
 /-- Int16 source `[10,11,…,19]`, `a[0:2:9]` in the URL, then `[1:3]`: numpy gives shape `(2,)`, values 12, 14 -/
@@ -314,5 +393,31 @@ example : E2E.WFArr .string [2, 3] ([[97], [98], [99], [100], [101], []].map Xdr
   ⟨by decide, by decide, by decide⟩
 example : E2E.InRange [2, 3] [[1], [0, 2]] ∧ E2E.gather [2, 3] [[1], [0, 2]] [0, 1, 2, 3, 4, 5] = [3, 5] :=
   ⟨by simp [E2E.InRange], by decide⟩
+
+/-- a 2×3 Int32 grid with a Float64 and a String map, `g[1]`: two children are fetched (array, first map), the
+    second map stays lazy; hypotheses of `C02_e2e_grid` hold for it -/
+def exGridVals : List Xdr.Val := [.num 0, .num 1, .num 2, .num 3, .num 4, .num (-5)]
+def exGridMaps : List (Xdr.Ty × List Xdr.Val) :=
+  [(.float64, [.num 4607182418800017408, .num 0]), (.string, [.str [97], .str [], .str [98, 99]])]
+example : (E2E.fetchGrid true .int32 [2, 3] exGridVals exGridMaps [] [Idx.int 1]).length = 2 ∧
+    (E2E.fetchGrid true .int32 [2, 3] exGridVals exGridMaps [] [Idx.int 1])[1]? = some (1, .ok (.array [.num 0], [])) := by
+  have hwm : ∀ j (h1 : j < exGridMaps.length) (h2 : j < [2, 3].length),
+      E2E.WFArr exGridMaps[j].1 [[2, 3][j]] exGridMaps[j].2 := by
+    intro j h1 h2
+    match j, h1 with
+    | 0, _ => exact (show E2E.WFArr .float64 [2] [.num 4607182418800017408, .num 0] from ⟨by decide, by decide, by decide⟩)
+    | 1, _ => exact (show E2E.WFArr .string [3] [.str [97], .str [], .str [98, 99]] from ⟨by decide, by decide, by decide⟩)
+  have hv : ValidList [2, 3] (padPre [] 2) (npExpand [Idx.int 1] none 2) :=
+    ⟨nonNeg_all, ⟨by decide, by decide⟩, nonNeg_all,
+      ⟨by simp [PSlice.all], by simp [PSlice.all], by simp [PSlice.all], by decide⟩, trivial⟩
+  obtain ⟨hlen, _, hm⟩ := C02_e2e_grid .int32 [2, 3] exGridVals exGridMaps [] [Idx.int 1]
+    ⟨by decide, by decide, by decide⟩ rfl hwm (by decide) (by intro x hx; simp at hx; subst hx; simp) (by decide) hv
+  obtain ⟨cs, vs, h1, h2⟩ := hm 0 (by decide)
+  have : E2E.numpyIndex [2] [Xdr.Val.num 4607182418800017408, .num 0] [PSlice.all] [Idx.int 1]
+      = some ([1], [.num 0]) := by decide
+  rw [show E2E.numpyIndex [[2, 3][0]] (exGridMaps[0]).2 [(padPre [] [2, 3].length)[0]] [[Idx.int 1][0]]
+      = E2E.numpyIndex [2] [Xdr.Val.num 4607182418800017408, .num 0] [PSlice.all] [Idx.int 1] from rfl, this] at h1
+  cases h1
+  exact ⟨hlen, h2⟩
 
 end Pydap.C02
